@@ -19,6 +19,10 @@ type Outcome struct {
 	Panic string // non-empty if the call panicked
 	DVal  string // destination value after the call ("" if the op has no destination)
 	Hang  bool
+	// Deadlock: the call waited for a simulated lock / condition that no task
+	// could ever release (in a one-task execution: left held by an earlier call,
+	// or taken twice)
+	Deadlock bool
 	// Self: a violation the operation can see by itself (an argument that is
 	// not a Decimal register — a *BigInt, a byte slice — was modified by the
 	// call). Differential oracles cannot see it because both executions do it.
@@ -545,7 +549,7 @@ func Exec(def *OpDef, a *Args) (o Outcome) {
 			}
 			if _, ok := r.(deadlockSentinel); ok {
 				markUnwound()
-				o = Outcome{Hang: true, Panic: "deadlock: the task waits for a lock that no runnable task can release"}
+				o = Outcome{Hang: true, Deadlock: true, Panic: "deadlock: the task waits for a lock that no runnable task can release"}
 				return
 			}
 			msg := fmt.Sprint(r)
